@@ -153,12 +153,17 @@ func validOptionalPort(port string) bool {
 	return true
 }
 
+// IsUnsafeMethod reports whether the method is not known to be safe (RFC 9110
+// §9.2.1). Only the methods registered as safe in the IANA HTTP Method Registry
+// are safe; everything else - including WebDAV write methods and unknown
+// extension methods - must be assumed to change state (RFC 9111 §4.4).
 func IsUnsafeMethod(method string) bool {
 	switch method {
-	case http.MethodPost, http.MethodPut, http.MethodDelete, http.MethodPatch:
-		return true
-	default:
+	case http.MethodGet, http.MethodHead, http.MethodOptions, http.MethodTrace,
+		"PROPFIND", "REPORT", "SEARCH", "QUERY", "PRI":
 		return false
+	default:
+		return true
 	}
 }
 
